@@ -43,6 +43,14 @@ CLAIMED = {
          "generated search: for every mutator call the outcome must be admissible under DOM Level 1 computed from a snapshot of all reachable nodes: success with exactly the specified post-state, or one of the specified exception classes with the pre-state unchanged (atomic failure); panics are never admissible",
          "trusted: the DOM Level 1 reference semantics in props/c13.rs (hierarchy rules, exception conditions, character-data arithmetic); corners DOM Level 1 leaves open are not judged and counted (unspecified:*)",
          "DESIGN.md section 5, C13"),
+ "C05": ("property-based differential testing (proptest): generated documents x typed expression ASTs evaluated by an independent reference XPath 1.0 evaluator (validated against libxml2) and by the library",
+         "generated search: the value the library returns for a generated (document, expression, bindings) must equal the value of the reference evaluator vp-xref: node-sets as index vectors through a parallel walk (order and duplicates count), numbers bit-exactly, strings and booleans exactly",
+         "trusted: oracles/xref (std-only Rust written from the XPath 1.0 text; 6M-case differential campaign against libxml2 recorded in oracles/xref/NOTES.md); namespace nodes compared as multisets; constructs with an open finding are excluded by construction and counted",
+         "DESIGN.md section 5, C05"),
+ "C09": ("property-based differential testing (proptest): scalar-only expressions over boundary-value pools against the reference evaluator's scalar library",
+         "generated search: every core string/number/boolean function, arithmetic, unary minus and all comparisons over pools of boundary strings and numbers must give the reference evaluator's value (numbers bit-exactly; sign of zero observed through 1 div x)",
+         "trusted: oracles/xref scalar library; evaluations that convert a negative zero to a string are excluded while that finding is open",
+         "DESIGN.md section 5, C09"),
 }
 ALL = ["C%02d" % i for i in range(1, 20)]
 PENDING_REASON = "check not built yet in this snapshot of /verif (work in progress; DESIGN.md section 5 describes the planned generated-search check)"
